@@ -779,3 +779,36 @@ def c18_cases(thorough):
           c = Case('ORD/' + use, Program(P + extra), preds, dbs=dbs, fact_dbs=[dbs[37]], info=dict(K=K, order=order, form=form, use=use, ordered=ordered))
           c.ol = ol
           yield c
+
+
+# ======================================================================================== C08 plan annotations
+PLAN_ANNS = [None, '@NoInject(%s);', '@With(%s);', '@NoWith(%s);', '@Ground(%s);']
+
+
+def c08_shapes(thorough):
+  D = lambda *a, **k: R(*a, distinct=True, **k)
+  S = {}
+  S['chain'] = ([R('P', x, y, body=(Lit('A', x, y), Cmp('<=', x, y))), R('Q', x, y, body=(Lit('P', x, y), Lit('B', y))), R('T', x, body=(Lit('Q', x, y),))], ['P', 'Q'])
+  S['diamond'] = ([R('P', x, y, body=(Lit('A', x, y),)), R('Q', x, body=(Lit('P', x, y),)), R('S', y, body=(Lit('P', x, y), Lit('B', x))), R('T', x, y, body=(Lit('Q', x), Lit('S', y)))], ['P', 'Q', 'S'])
+  S['twice'] = ([R('P', x, y, body=(Lit('A', x, y),)), R('T', x, z, body=(Lit('P', x, y), Lit('P', y, z)))], ['P'])
+  S['combine_neg'] = ([R('P', x, y, body=(Lit('A', x, y), Lit('B', x))), R('Q', x, body=(Lit('A', x, x),)),
+                       R('T', x, s_, body=(Lit('B', x), Eq(s_, Comb('Sum', y, (Lit('P', x, y),))), Not(Lit('Q', x))))], ['P', 'Q'])
+  S['aggregating'] = ([R('P', x, named={'s': Aggr('Sum', y)}, body=(Lit('A', x, y),), distinct=True), R('Q', x, body=(Lit('P', x, s=s_), Cmp('>', s_, N(1)))), R('T', x, s_, body=(Lit('Q', x), Lit('P', x, s=s_)))], ['P', 'Q'])
+  S['two_rules'] = ([R('P', x, body=(Lit('A', x, y),)), R('P', x, body=(Lit('B', x),)), R('Q', x, Bin('+', x, N(1)), body=(Lit('P', x),)), R('T', x, y, body=(Lit('Q', x, y), Lit('P', y)))], ['P', 'Q'])
+  S['recursive_consumer'] = ([R('P', x, y, body=(Lit('A', x, y), Cmp('!=', x, y))), D('C', x, y, body=(Lit('P', x, y),)), D('C', x, z, body=(Lit('C', x, y), Lit('P', y, z))), R('T', x, y, body=(Lit('C', x, y),)), Ann('@Recursive(C, 2);')], ['P'])
+  S['functional'] = ([R('P', x, value=y, body=(Lit('A', x, y),)), R('Q', x, value=Bin('+', Call('P', x), N(1)), body=(Lit('B', x),)), R('T', x, Call('Q', x), body=(Lit('B', x),))], ['P', 'Q'])
+  if thorough:
+    S['three_chain'] = ([R('P', x, y, body=(Lit('A', x, y),)), R('Q', x, y, body=(Lit('P', y, x),)), R('S', x, body=(Lit('Q', x, y), Lit('B', y))), R('T', x, body=(Lit('S', x), Not(Lit('P', x, x))))], ['P', 'Q', 'S'])
+    S['disjunctive_use'] = ([R('P', x, y, body=(Lit('A', x, y),)), R('Q', x, body=(Lit('B', x),)), R('T', x, body=(('or', ((Lit('P', x, y), Lit('Q', y)), (Lit('Q', x), Not(Lit('P', x, x))))),))], ['P', 'Q'])
+  return S
+
+
+def c08_cases(thorough):
+  dbs = dbs_ab(2)
+  for name, (rules, inter) in c08_shapes(thorough).items():
+    for assign in itertools.product(range(len(PLAN_ANNS)), repeat=len(inter)):
+      anns = [Ann(PLAN_ANNS[a] % p) for a, p in zip(assign, inter) if PLAN_ANNS[a]]
+      preds = ['T'] + list(inter)
+      c = Case('PLAN/' + name, Program(anns + rules), preds, dbs=dbs, fact_dbs=[FACT_DBS_AB[2]], info=dict(shape=name, assign=assign, depth=2))
+      if name == 'recursive_consumer': c.depths = {'C': 2}
+      yield c
